@@ -56,7 +56,7 @@ var Spec = []string{
 	"b.html", "b.html.gz",
 	"c.txt", "c.txt.zst",
 	"dir/index.html", "dir/index.html.gz", "dir/b.txt", "dir/sub/c.txt", "dir/sub/deep/d.txt",
-	"noindex/d.txt", "noindex/e.html", "noindex/UPPER.TXT", "noindex/inner/f.txt", "noindex/d.txt.gz",
+	"noindex/d.txt", "noindex/e.html", "noindex/priv/n1.txt", "noindex/priv/more/n2.txt", "noindex/UPPER.TXT", "noindex/inner/f.txt", "noindex/d.txt.gz",
 	"secret/index.html", "secret/s1.txt", "secret/s1.txt.gz", "secret/deep/s2.txt", "secret/pub/p.txt", "secret/page.html", "secret/t.md",
 	"internal/i1.txt", "internal/sub/i2.txt",
 	"public/p1.txt", "public/tpl.html", "public/readme.md",
